@@ -55,6 +55,17 @@ def term_coq(t):
     return '(TSimple %s)' % margin_coq(t)
 
 
+S5 = 'S5-cyclic-penalty'
+
+
+def s5_shape(M, b, got, n):
+    """the listed defect: the cyclic penalty is a symmetric PSD n x n Gram matrix that is not the Gram matrix of cyclic
+    differences.  A cyclic penalty that is asymmetric, indefinite or of the wrong shape is NOT the listed finding."""
+    if M.shape != (n, n) or not (M == M.T).all():
+        return False
+    return bool(np.linalg.eigvalsh(M).min() > -1e-9 * max(1.0, abs(M).max()))
+
+
 def direct_probe(res, rng, tier):
     """The property statement evaluated directly on the implementation with integer coefficient vectors
     (exact in binary64): beta' P beta == sum of squared d-th (cyclic) differences; symmetry; constants / lines in
@@ -69,7 +80,7 @@ def direct_probe(res, rng, tier):
                 try:
                     M = P.derivative(n, None, derivative=d, periodic=per).toarray()
                 except Exception as e:  # the property quantifies over all n >= 1
-                    res.violations.append(dict(what='penalty construction raised', finding=None,
+                    res.violations.append(dict(what='penalty construction raised', finding=S5 if (per and isinstance(e, ValueError) and n < d) else None,
                                                input=dict(fn='derivative', n=n, derivative=d, periodic=per),
                                                observed='%s: %s' % (type(e).__name__, e), expected='an n x n matrix'))
                     res.case(key)
@@ -98,7 +109,8 @@ def direct_probe(res, rng, tier):
                         res.violations.append(dict(
                             what='quadratic form of the %s order-%d penalty differs from the sum of squared %sdifferences '
                                  '(or the matrix is asymmetric / penalises constants)' % ('cyclic' if per else 'derivative', d, 'cyclic ' if per else ''),
-                            finding=None, input=dict(fn='derivative', n=n, derivative=d, periodic=per, beta=b.tolist()),
+                            finding=S5 if (per and s5_shape(M, b, got, n)) else None,
+                            input=dict(fn='derivative', n=n, derivative=d, periodic=per, beta=b.tolist()),
                             observed=dict(quad=got, const_quad=float(c @ M @ c)), expected=dict(quad=want, const_quad=0.0)))
                         break
                 res.case(key, sample=dict(probe='quadform', n=n, d=d, periodic=per) if (n, d) == (7, 2) else None)
@@ -122,9 +134,9 @@ def fn_cases(res, tier):
             for per in (False, True):
                 try:
                     M = P.derivative(n, None, derivative=d, periodic=per)
-                except Exception as e:
-                    meta.append(None)
-                    cases.append('(CFn PNone 0 [[(1%Z,0%Z)]])')  # placeholder that fails: reported through direct_probe
+                except ValueError as e:
+                    cases.append('(CFnErr (%s %d) %d)' % ('PPeriodic' if per else 'PDeriv', d, n))
+                    meta.append(dict(fn='derivative', n=n, derivative=d, periodic=per, raised='ValueError'))
                     continue
                 cases.append('(CFn (%s %d) %d %s)' % ('PPeriodic' if per else 'PDeriv', d, n, mat_coq(M)))
                 meta.append(dict(fn='derivative', n=n, derivative=d, periodic=per))
